@@ -10,6 +10,9 @@ TRUSTED_BASE = [
     "the tie between Model/Preds.v and the implementation's prover is (i) the verifier side (C03/C05: the real verifier accepts, its model is validated) and (ii) the distinguisher catalogue below run on Presentation::create output: a reuse of a nonce as blinding factor / encryption randomness / second nonce makes one of the tested relations hold",
     "correspondence / search: harness/src/ops_create.rs action leak — for every commitment / encryption / encrypt-and-decrypt statement and every candidate value m' (signed value, +-1, random, the credential's other claims): L == m'*Q1 + (resp - c*m')*Q2 for every transmitted G1 element L and public generators Q1, Q2 in {G, message generator, blinder generator / encryption key, 0}; per-byte dictionary tests G*resp_i - c1_i == c*b*G and resp_i == c*b for b in 0..255, byte proofs sharing a nonce, resp == c*m' (zero nonce); (resp_i - resp_j) == c*(m_i - m_j) for every pair of hidden claims",
 ]
+TRUSTED_BASE = TRUSTED_BASE + [
+    "the accumulator proof parameters X, Y, Z, K are treated as elements with hidden, independent logs; tie to the code: they are recomputed by the harness as hash-to-curve images of four distinct inputs (op d_proof_params, repeats the prefix bytes and the domain separation tag of vb20) and must equal ProofParams::new",
+]
 ASSUMPTIONS = ["DDH in G1 (ElGamal), zero knowledge of bulletproofs, the OS random number generator",
                "the catalogue is a finite set of public-data distinguishers; absence of a hit is evidence, the theorems carry the claim for the modelled sub-protocols"]
 
@@ -78,6 +81,7 @@ def explore(ctx):
             hist["hits"] += 1
             failures.append({"class": None, "witness": True,
                              "text": f"a transmitted element is a function of the hidden claim values alone: {h['path']} is the same for two independently issued credentials over the same claims and differs for other claims ({s['suite']}); candidate values can be tested against it", "case": s})
+    failures += C.proof_params_pin()
     return {
         "evaluations": n_tests,
         "distinct_nontrivial": len(distinct),
